@@ -44,35 +44,7 @@ def run(ctx, rep):
             rep.violation('C17.1', 'C17.1:%s:%s' % (fn, 'JoinAll' if 'JoinAll' in what else what.split('<')[0][-40:]),
                           b.where(bi), 'the result of `%s` in %s is dropped without being looked at: a backend error '
                           'is lost and the operation continues as if the request had succeeded' % (what[:140], fn))
-    # combinators that throw the error away
-    from ..errs import is_result_ty
-    DISCARD = {'Result::<T, E>::or': 1, 'Result::<T, E>::ok': 0, 'Result::<T, E>::unwrap_or': 0,
-               'Result::<T, E>::unwrap_or_default': 0}
-    nd = 0
-    for b in f.body_list:
-        if '::tests::' in b.path:
-            continue
-        # backend errors only travel through asynchronous code (and closures defined inside it): a synchronous parser
-        # that skips an unrecognised item with `.ok()` discards no storage error
-        root = f.body(b.root) if getattr(b, 'root', None) else None
-        asyncish = b.is_coroutine or '::{closure#0}::' in b.path or (root is not None and (root.is_coroutine or root.is_async_fn))
-        if not asyncish:
-            continue
-        for bi, t in b.calls():
-            fn = t.get('fn') or ''
-            for suf, ai in DISCARD.items():
-                if fn.endswith(suf) and ai < len(t['args']) and t['args'][ai]['k'] in ('copy', 'move'):
-                    tid = b.locals[t['args'][ai]['pl']['l']]
-                    if t['args'][ai]['pl']['p']:
-                        continue
-                    if is_result_ty(f, tid):
-                        nd += 1
-                        me = short(b.path)
-                        rep.ob('C17.1', '%s@%s %s' % (me, b.where(bi), suf.split('::')[-1]), False, 'error-discarding combinator')
-                        rep.violation('C17.1', 'C17.1:%s:%s' % (me, suf.split('::')[-1]), b.where(bi),
-                                      '%s applies `%s` to a Result<_, Qcow2Error>: %s - a backend error is lost and the operation '
-                                      'reports success' % (me, suf.split('::')[-1],
-                                                           'when the receiver is Ok the argument is dropped with its error' if ai == 1 else 'the error is thrown away'))
+    nd = discard_combinators(f, rep, 'C17.1')
     rep.ob('C17.1', 'error-discarding combinators (or / ok / unwrap_or / unwrap_or_default) on Qcow2 results', nd == 0, '%d call(s)' % nd)
     rep.floor('call sites scanned for dropped results', n_calls, 3000)
     from .. import errs
@@ -147,3 +119,39 @@ def run(ctx, rep):
     from . import rollback
     from ..interp import Program as _Prog
     rollback.report(ctx.lib, _Prog(ctx.lib), rep, 'C17.5', ('restore', 'release'))
+
+
+def discard_combinators(f, rep, rid, scope=None):
+    """combinators that throw the error of a Result<_, Qcow2Error> away (`or`, `ok`, `unwrap_or`, `unwrap_or_default`) in
+    asynchronous code; scope: optional predicate on the short function name"""
+    from ..errs import is_result_ty
+    DISCARD = {'Result::<T, E>::or': 1, 'Result::<T, E>::ok': 0, 'Result::<T, E>::unwrap_or': 0,
+               'Result::<T, E>::unwrap_or_default': 0}
+    nd = 0
+    for b in f.body_list:
+        if '::tests::' in b.path:
+            continue
+        # backend errors only travel through asynchronous code (and closures defined inside it): a synchronous parser
+        # that skips an unrecognised item with `.ok()` discards no storage error
+        root = f.body(b.root) if getattr(b, 'root', None) else None
+        asyncish = b.is_coroutine or '::{closure#0}::' in b.path or (root is not None and (root.is_coroutine or root.is_async_fn))
+        if not asyncish:
+            continue
+        if scope is not None and not scope(short(b.path)):
+            continue
+        for bi, t in b.calls():
+            fn = t.get('fn') or ''
+            for suf, ai in DISCARD.items():
+                if fn.endswith(suf) and ai < len(t['args']) and t['args'][ai]['k'] in ('copy', 'move'):
+                    tid = b.locals[t['args'][ai]['pl']['l']]
+                    if t['args'][ai]['pl']['p']:
+                        continue
+                    if is_result_ty(f, tid):
+                        nd += 1
+                        me = short(b.path)
+                        rep.ob(rid, '%s@%s %s' % (me, b.where(bi), suf.split('::')[-1]), False, 'error-discarding combinator')
+                        rep.violation(rid, '%s:%s:%s' % (rid, me, suf.split('::')[-1]), b.where(bi),
+                                      '%s applies `%s` to a Result<_, Qcow2Error>: %s - a backend error is lost and the operation '
+                                      'reports success' % (me, suf.split('::')[-1],
+                                                           'when the receiver is Ok the argument is dropped with its error' if ai == 1 else 'the error is thrown away'))
+    return nd
